@@ -37,7 +37,7 @@ class InjectedIOError(IOError):
 class Lazy(Machine):
     PROPERTY = "C19"
     NAME = "lazy_programs"
-    BUDGET = {"quick": {"runs": 60000, "wall": 75, "digests": 32, "block": 250},
+    BUDGET = {"quick": {"runs": 90000, "wall": 75, "digests": 32, "block": 250},
               "thorough": {"runs": 1500000, "wall": 840, "digests": 256, "block": 1000}}
     LEVEL = {"quick": "exploration", "thorough": "exploration"}
     RULE = ("seeded programs of LazyList operations (map, map-per-element, index, numpy index, slice, "
